@@ -701,7 +701,9 @@ impl UnifiedCommandExecutor {
             }
             
             StringCommand::DecrBy { key, decrement } => {
-                let result = self.storage.incr_by(db, key, -(decrement))?;
+                let negated = decrement.checked_neg()
+                    .ok_or(FerrousError::Command(CommandError::IntegerOverflow))?;
+                let result = self.storage.incr_by(db, key, negated)?;
                 Ok(RespFrame::Integer(result))
             }
             
